@@ -127,6 +127,17 @@ func TestTimeExpressionStaticAnalysisSameAsInput(t *testing.T) {
 	}
 }
 
+func TestTimeExpressionRememberedFormatNotFolded(t *testing.T) {
+	// "oct 7,  1970" (two spaces) is not detected by itself, but parses with the format "oct 7, 1970" leaves behind:
+	// the stage answers a constant element by what it remembers, so the optimizer must not fold it
+	for _, kb := range []*expressions.KeyBuilder{NewStdKeyBuilderEx(true), NewStdKeyBuilderEx(false)} {
+		compiled, err := kb.Compile(`{@map {@ "oct 7,  1970" "oct 7, 1970"} "{time {0}}"}`)
+		assert.Nil(t, err)
+		assert.Equal(t, "<PARSE-ERROR>"+expressions.ArraySeparatorString+"24105600", compiled.BuildKey(mockContext("")))
+		assert.Equal(t, "24105600"+expressions.ArraySeparatorString+"24105600", compiled.BuildKey(mockContext("")))
+	}
+}
+
 func TestTimeExpressionDetectionAuto(t *testing.T) {
 	testExpression(t,
 		mockContext("14/Apr/2016:19:12:25 +0200"),
